@@ -184,7 +184,14 @@ pub fn run(ctx: &Ctx) {
     let thr_of = |subset: u32| -> Vec<(u32, u32)> { if subset & (1 << 8) != 0 { vec![(1, 1), (2, 1), (1, 2)] } else { vec![(1, 1)] } };
     // arguments channel
     let arg_subsets = if thorough { subsets_le(16) } else { subsets_le(2) };
-    let arg_inputs: Vec<&Vec<String>> = if thorough { inputs.iter().take(2).collect() } else { inputs.iter().collect() };
+    // a bare hyphen is the stdin marker only when it is the single positional argument
+    let hyphen_inputs: Vec<Vec<String>> = vec![s(&["-", "a", "b"]), s(&["a", "-"]), s(&["-", "-"])];
+    let mut arg_inputs: Vec<&Vec<String>> = if thorough { inputs.iter().take(2).collect() } else { inputs.iter().collect() };
+    if !thorough {
+        arg_inputs.extend(hyphen_inputs.iter());
+    } else {
+        arg_inputs.push(&hyphen_inputs[0]);
+    }
     par_for(arg_subsets.len(), |i| {
         let sub = arg_subsets[i];
         for (j, inp) in arg_inputs.iter().enumerate() {
